@@ -855,8 +855,10 @@ def rule_a4_moment(repo: Repo) -> List[Ob]:
             obs.append(inconclusive("A4-moment-shape", f"{cls.relpath}::{cls.name}.get_moment::shape", cls.relpath, m.node.lineno, m.qualname, f"unexpected signature {p}"))
             continue
         selfn, k, _ctx, cond, rest = p[:5]
-        defs = Defs(m.node, selfn)
-        rets = return_exprs(m.node)
+        from ..shape import expanded
+        mx = expanded(repo, m)          # accumulation loops moved into helpers of the class are read in place
+        defs = Defs(mx, selfn)
+        rets = return_exprs(mx)
         if len(rets) != 1:
             obs.append(inconclusive("A4-moment-shape", f"{cls.relpath}::{cls.name}.get_moment::shape", cls.relpath, m.node.lineno, m.qualname, f"{len(rets)} return statements"))
             continue
@@ -898,7 +900,7 @@ def rule_a4_moment(repo: Repo) -> List[Ob]:
                       f"every condition-true summand carries the factors `{cond}` and `{rest}`" if ok_if else (why or "no condition-true part")))
         if cls.name == "PolyAssignment":
             verdict = None   # True / False / None, text
-            for n in walk_no_nested(m.node):
+            for n in walk_no_nested(mx):
                 if not (isinstance(n, ast.BinOp) and isinstance(n.op, ast.Mult)) or (isinstance(parent(n), ast.BinOp) and isinstance(parent(n).op, ast.Mult)):
                     continue
                 fs = flatten(n, ast.Mult)
